@@ -228,14 +228,20 @@ func historyStream(f gallina.Flags, meta *gallina.Meta) {
 	w := &shardWriter{Dir: f.Out, Prefix: "h", Type: "CorrC01.case", PerShard: 32,
 		Preamble: "From Coq Require Import List ZArith.\nFrom Verif Require Import lib.Int64 model.TsdbSpec model.Tsdb corr.CorrC01 corr.CorrC20H.\nImport ListNotations.\nOpen Scope Z_scope.\n"}
 	cp := histCorpus()
+	if os.Getenv("C20_FINDINGS") != "" {
+		cp = append(cp, histFindings()...)
+	}
 	if v := os.Getenv("C20_HIST"); v != "" { // debugging aid: one generated history
 		var idx int
 		fmt.Sscan(v, &idx)
 		_, _, hd, r := runHistory(f.Out, f.Seed, idx, nil)
 		fmt.Fprintf(os.Stderr, "%+v\n%v\n", hd, r.classes)
+		for _, st := range r.steps {
+			fmt.Fprintln(os.Stderr, st)
+		}
 		return
 	}
-	total := len(cp) + f.Count(44, 600)
+	total := len(cp) + f.Count(44, 400)
 	type outcome struct {
 		term, sig string
 		hd        histDesc
@@ -315,7 +321,7 @@ func tombStream(f gallina.Flags, meta *gallina.Meta) {
 	for k := range cp {
 		emit(tombCase(f.Out, f.Seed, 1000000+k, &cp[k]))
 	}
-	n := f.Count(300, 6000)
+	n := f.Count(300, 4000)
 	for i := 0; i < n; i++ {
 		emit(tombCase(f.Out, f.Seed, i, nil))
 	}
